@@ -500,6 +500,11 @@ qb_vsnprintf_serialize(char *serialize, size_t max_len,
 	 */
 	if ((qb_xc = strchr(serialize, QB_XC)) != NULL) {
 		*qb_xc = *(qb_xc + 1)? '|' : '\0';
+		if (*qb_xc == '\0') {
+			/* the format just got shorter, and the reader looks
+			 * for the arguments right behind its terminator */
+			location = (qb_xc - serialize) + 1;
+		}
 	}
 
 	format = (char *)fmt;
@@ -700,6 +705,7 @@ reprocess:
 			}
 			memcpy(&serialize[location], &arg_pointer, sizeof(ptrdiff_t));
 			location += sizeof(ptrdiff_t);
+			format++;
 			break;
 			}
 		case '%':
@@ -707,8 +713,9 @@ reprocess:
 				return max_len;
 			}
 			serialize[location++] = '%';
-                        sformat_length = 0;
-                        sformat_precision = QB_FALSE;
+			/* step over it, or the second '%' of "%%" would be
+			 * taken for the start of a conversion */
+			format++;
 			break;
 
 		}
@@ -929,6 +936,8 @@ reprocess:
 			}
 		case '%':
 			string[location++] = '%';
+			/* the encoder stores a byte for it, too */
+			data_pos += sizeof(char);
 			format++;
 			break;
 
